@@ -4,6 +4,7 @@ mod alloc;
 mod asyncm;
 mod fes;
 mod gates;
+mod ndl;
 mod net;
 mod props;
 mod repro;
@@ -27,6 +28,8 @@ fn main() {
         ("body", "replay") => body::replay(&args[2..]),
         ("asyncm", "replay") => asyncm::replay(&args[2..]),
         ("repro", "run") => repro::run(&args[2..]),
+        ("ndl", "replay") => ndl::replay(&args[2..]),
+        ("ndl", "grammar") => ndl::grammar(&args[2..]),
         ("tree", "replay") => tree::replay(&args[2..]),
         ("net", "replay") => net::replay(&args[2..]),
         ("gates", "replay") => gates::replay(&args[2..]),
